@@ -36,6 +36,9 @@ CHECKS = {
  "C12": ("exhaustive pairwise checking over a closed type universe x constant universe (E1): SetConforms(S,T) affirmed => members(S) subset members(T); UpperBound/LowerBound of every pair and of every triple of a sub-alphabet, membership by the library's HasType",
          "bounded-exhaustive: every ordered pair of a ~600-type universe is judged and checked against the membership matrix over ~1500 constants; every alarm carries a concrete separating constant",
          "relative to the constant universe V; two design inconsistencies asserted by the repo's own tests (map key contravariance, struct width subtyping vs exact membership) are recorded as known findings and attributed only when the witness is explained by exactly that relaxation", "4 C12"),
+ "C19": ("exhaustive write/read cycles over enumerated stores (E1): one- and two-fact stores for every constant of the printable universe, every ordered predicate layout with 0-2 facts, formats plain/gzip/zstd x deterministic on/off, read back eagerly and lazily with every pattern query; byte equality of deterministic writes over every insertion order",
+         "bounded-exhaustive: every store of the enumerated families is written by SimpleColumn.WriteTo and read back by ReadInto (3 store kinds) and SimpleColumnStore (full scan, counts, Contains, every pattern over the columns' constants) and compared as sets with the original",
+         "printable constants only (C09 alphabet); hash-keyed target/source stores are used only for fact sets without Atom.Hash() collisions (their conflation is C06's known finding)", "4 C19"),
 }
 NOT_APPLICABLE = {
 }
